@@ -134,8 +134,8 @@ func init() {
 	register(&Property{
 		ID:         "C37",
 		Level:      "other",
-		Technique:  "field-set containment per descriptor-proto message between the compact raw-descriptor parser (internal/filedesc) and protodesc's reader, with a reviewed exception table (static)",
-		Explain:    "Decides a structural necessary condition of agreement between the two descriptor builders: for each descriptor-proto message type, every field that protodesc.NewFile reads is also handled (by its genid field-number constant) in the compact builder's seed or lazy parser in internal/filedesc, and vice versa; a field parsed by only one builder makes the two descriptors of the same file disagree on the accessor it feeds. Exceptions are listed with reasons. Feature resolution agreement (R-FEATURE-FIELDS) is part of this check.",
+		Technique:  "field-set containment per descriptor-proto message between the compact raw-descriptor parser (internal/filedesc) and protodesc's reader, with a reviewed exception table; presence-vs-value agreement of the parser clauses; CFG dominance of the RequiredNumbers appends (static)",
+		Explain:    "Decides a structural necessary condition of agreement between the two descriptor builders: for each descriptor-proto message type, every field that protodesc.NewFile reads is also handled (by its genid field-number constant) in the compact builder's seed or lazy parser in internal/filedesc, and vice versa; a field parsed by only one builder makes the two descriptors of the same file disagree on the accessor it feeds. Exceptions are listed with reasons. Feature resolution agreement (R-FEATURE-FIELDS) is part of this check. Two derived facts are compared as well: a field that protodesc treats by presence (`!= nil` on an optional scalar) is stored by the compact parser without any branch on the consumed value (presence is reaching the clause), and both constructions list a field in RequiredNumbers under the test of its resolved cardinality.",
 		NotCovered: "agreement of accessor results on concrete files (values), option message contents (kept raw by the compact builder), and the lazy/eager split inside filedesc.",
 		Quick:      all("./reflect/protodesc", "./internal/filedesc", "./types/descriptorpb"),
 		Thorough:   all("./..."),
@@ -143,6 +143,8 @@ func init() {
 			c.ruleDescFields("R-DESC-FIELDS", "C37")
 			c.ruleFeatureFields("R-FEATURE-FIELDS")
 			c.ruleOptionOverride("R-FEATURE-FIELDS")
+			c.ruleDescPresenceStore("R-DESC-PRESENCE-STORE", 6)
+			c.ruleRequiredNumbers("R-REQUIRED-NUMBERS", 2)
 		},
 	})
 }
